@@ -9,10 +9,13 @@ import (
 	"net/http/httptest"
 	"net/url"
 	"os"
+	"regexp"
+	"runtime"
 	"sort"
 	"strconv"
 	"strings"
 	"sync"
+	"time"
 
 	restful "github.com/emicklei/go-restful/v3"
 
@@ -403,11 +406,14 @@ const (
 func Do(c *restful.Container, rec *Recorder, r model.ReqSpec, via, id string) (o Outcome) {
 	hr := NewHTTPRequest(r, id)
 	w := httptest.NewRecorder()
-	func() {
+	done := make(chan string, 1)
+	go func() {
+		pan := ""
 		defer func() {
 			if p := recover(); p != nil {
-				o.Panic = fmt.Sprint(p)
+				pan = fmt.Sprint(p)
 			}
+			done <- pan
 		}()
 		if via == ViaServe {
 			c.ServeHTTP(w, hr)
@@ -415,6 +421,22 @@ func Do(c *restful.Container, rec *Recorder, r model.ReqSpec, via, id string) (o
 			c.Dispatch(w, hr)
 		}
 	}()
+	select {
+	case o.Panic = <-done:
+	case <-time.After(RequestWatchdog):
+		// "exactly one outcome" includes that there is one: a request that is still busy inside
+		// go-restful after two looks at the goroutine dump does not terminate (or waits for a
+		// lock the library left held). Anything else the dump shows proves nothing.
+		if where := stuckInLibrary(); where != "" {
+			o.Panic = "DID NOT RETURN within " + RequestWatchdog.String() + ": a goroutine is still in " + where
+			// the verdict stands; while rapid shrinks the case there is no need to wait that long again
+			RequestWatchdog, stuckPause = 3*time.Second, time.Second
+		} else {
+			noteInconclusive("a request did not return within " + RequestWatchdog.String() + " and the goroutine dump shows no go-restful frame")
+			o.Panic = <-done
+		}
+		return o
+	}
 	res := w.Result()
 	o.Status = res.StatusCode
 	o.Header = res.Header
@@ -430,4 +452,79 @@ func Do(c *restful.Container, rec *Recorder, r model.ReqSpec, via, id string) (o
 		}
 	}
 	return o
+}
+
+// RequestWatchdog bounds one request in Do (requests take microseconds).
+var RequestWatchdog = 20 * time.Second
+
+var stuckPause = 3 * time.Second
+
+var libFrame = regexp.MustCompile(`github\.com/emicklei/go-restful/v3\.[^\n(]*`)
+
+// stuckInLibrary looks at all goroutines twice, three seconds apart, and names the go-restful
+// function a goroutine (not created by the library's own tests) is in both times.
+func stuckInLibrary() string {
+	look := func() map[string]string {
+		buf := make([]byte, 8<<20)
+		buf = buf[:runtime.Stack(buf, true)]
+		m := map[string]string{}
+		for _, g := range strings.Split(string(buf), "\n\n") {
+			head := g
+			if i := strings.Index(g, "\n"); i > 0 {
+				head = g[:i]
+			}
+			f := strings.Fields(head)
+			if len(f) < 2 {
+				continue
+			}
+			// the innermost frame outside the standard library decides whose code is running:
+			// a route function or filter of the harness that waits on purpose is not the library
+			for _, line := range strings.Split(g, "\n")[1:] {
+				if strings.HasPrefix(line, "\t") || strings.HasPrefix(line, "created by") {
+					continue
+				}
+				first := line
+				if i := strings.Index(first, "/"); i >= 0 {
+					first = first[:i]
+				}
+				if !strings.HasPrefix(line, "verif/") && (!strings.Contains(first, ".") || !strings.Contains(line, "/")) {
+					continue // standard library (runtime., sync., regexp., net/http., ...)
+				}
+				if fr := libFrame.FindString(line); fr != "" {
+					m[f[1]] = fr // goroutine id -> go-restful function
+				}
+				break
+			}
+		}
+		return m
+	}
+	a := look()
+	time.Sleep(stuckPause)
+	b := look()
+	for id, fr := range a {
+		if b[id] != "" {
+			return fr
+		}
+	}
+	return ""
+}
+
+var (
+	inconclusiveMu    sync.Mutex
+	inconclusiveNotes []string
+)
+
+func noteInconclusive(s string) {
+	inconclusiveMu.Lock()
+	inconclusiveNotes = append(inconclusiveNotes, s)
+	inconclusiveMu.Unlock()
+}
+
+// TakeInconclusive returns (and forgets) the watchdog expiries that could not be turned into a verdict.
+func TakeInconclusive() []string {
+	inconclusiveMu.Lock()
+	defer inconclusiveMu.Unlock()
+	n := inconclusiveNotes
+	inconclusiveNotes = nil
+	return n
 }
